@@ -194,8 +194,21 @@ def r2_functions(program, folder, rep, eths):
         else:
             spec = [("unop", "USub", INT(0)), ("unop", "USub", INT(1))]
             text = ["-int(dx)", "-int(dy)"]
+        # every offset in the table is <= 0 (folded): abs(d) is -d there
+        try:
+            tbl_ = folder.name(MOD, "SPINN5_ETH_OFFSET")
+            nonpos = all(int(v_) <= 0 for row_ in tbl_ for cell_ in row_
+                         for v_ in cell_)
+        except Exception:
+            nonpos = False
         for k in (0, 1):
             g, w_ = poly(rets[0][1 + k]), poly(spec[k])
+            rk = plain(rets[0][1 + k])
+            if g != w_ and fname == "spinn5_chip_coord" and nonpos and \
+                    rk[0] == "call" and rk[1] == ("global", "abs") and \
+                    len(rk[2]) == 1 and poly(("unop", "USub", rk[2][0])) \
+                    == w_:
+                g = w_
             rep.check(g == w_, "C19-R2", inst,
                       "result[%d] = %s" % (k, text[k]),
                       construct="result %d %r" % (k, g), node=fn,
@@ -483,13 +496,20 @@ def r4_dimensions(program, rep):
                             "generator); that form is not analysed")
     triads = fl.fdiv(nb, Poly.const(3))
     # h is the loop variable; w = triads // h; result (12 w, 12 h)
-    hs = [a for a in h12.atoms()]
     ok = False
-    if len(h12.t) == 1 and len(hs) == 1 and list(h12.t.values())[0] == 12:
-        H = Poly.atom(hs[0])
-        # (n // 3) // h == n // (3 * h) for h >= 1
-        ok = (w12 == fl.fdiv(triads, H) * 12) or \
-            (w12 == fl.fdiv(nb, H * 3) * 12)
+    fi = 1          # which element of the result is the factor found
+    for fi_, (f12, q12) in ((1, (h12, w12)), (0, (w12, h12))):
+        # (the search may look for the height or for the width: the other
+        # one is triads // <it>)
+        hs = [a for a in f12.atoms()]
+        if len(f12.t) == 1 and len(hs) == 1 and \
+                list(f12.t.values())[0] == 12:
+            H = Poly.atom(hs[0])
+            # (n // 3) // h == n // (3 * h) for h >= 1
+            if (q12 == fl.fdiv(triads, H) * 12) or \
+                    (q12 == fl.fdiv(nb, H * 3) * 12):
+                ok, fi = True, fi_
+                break
     rep.check(ok, "C19-R4", inst,
               "result = (12 * (triads // h), 12 * h) with triads = "
               "num_boards // 3", construct="dimension scaling (%r, %r)" % (
@@ -502,7 +522,7 @@ def r4_dimensions(program, rep):
         rn_t = T.cfg.node_of(last[0])
         paths = T.facts_by_path(rn_t)
         # the height factor actually used in the result
-        ht = plain(T.term(last[0].value.elts[1], rn_t))
+        ht = plain(T.term(last[0].value.elts[fi], rn_t))
         HT = None
         if ht[0] == "binop" and ht[1] == "Mult":
             nc = [z for z in (ht[2], ht[3]) if z[0] != "const"]
@@ -553,7 +573,7 @@ def r4_dimensions(program, rep):
             # a scan that keeps a divisor found: every value the height
             # factor can hold is 1 or was stored under the factor test of
             # that very value
-            raw = T.term(last[0].value.elts[1], rn_t)
+            raw = T.term(last[0].value.elts[fi], rn_t)
             mus = [st_ for st_ in subterms(raw) if st_[0] == "mu"]
             if len(mus) == 1:
                 vals = []
